@@ -140,6 +140,16 @@ def run(tier, seed):
                 distgen_disturb(rnd, obj, xa)
                 mis = float(obj.misfit(xa.astype(work) if via == "concrete" else xa.copy()))
                 grad = col(obj.gradient(xa.astype(work) if via == "concrete" else xa.copy()))
+                # the same array object evaluated, moved in place, evaluated again (what the integrators do)
+                buf = xa.astype(work) if via == "concrete" else xa.copy()
+                obj.misfit(buf)
+                obj.gradient(buf)
+                buf[:, 0] = [v + rnd.choice([-0.5, 0.25, 0.75]) for v in x]
+                m_in, g_in = float(obj.misfit(buf)), col(obj.gradient(buf))
+                m_fr, g_fr = float(obj.misfit(buf.copy())), col(obj.gradient(buf.copy()))
+                if not (common.same_float(m_in, m_fr) and common.same_vec(g_in, g_fr)):
+                    violations.append(Violation("not-a-function-of-the-point", f"{desc}: after moving the evaluated array in place to {col(buf)} misfit / gradient are {m_in} / {g_in}, "
+                                                f"a fresh array with the same values gives {m_fr} / {g_fr}", {"desc": desc}))
             except Exception as e:  # noqa
                 violations.append(Violation("evaluation-raised", f"{desc}: misfit/gradient raised {type(e).__name__}: {e}", {"desc": desc}))
                 continue
